@@ -27,7 +27,8 @@ def run_one(prog, shared, out, idx, barrier, profiling):
     except BaseException as e:
         crash = "%s: %s" % (type(e).__name__, e)
     run.finished = True
-    out[idx] = {"events": list(run.events), "crash": crash, "nprof": getattr(run, "nprof", -1)}
+    out[idx] = {"events": list(run.events), "crash": crash, "nprof": getattr(run, "nprof", -1),
+                "prof": getattr(run, "prof_names", [])}
 
 
 HUNG = [False]
